@@ -452,9 +452,29 @@ class Interp:
         e = env
         while e is not None:
             if e.func is not None and not e.is_class and isinstance(e.func, FuncV) and not e.func.is_lambda:
-                return spec if id(e.func) in self.body_mode else None
+                if id(e.func) in self.body_mode:
+                    return spec
+                # not the function under verification: its loop runs normally if it can;
+                # a `for` over a sequence of symbolic length cannot, and is cut as well
+                if isinstance(node, ast.For) and self._symbolic_iterable(node, env):
+                    return spec
+                return None
             e = e.parent
         return None
+
+    def _symbolic_iterable(self, node, env):
+        from .values import LazyDictV, deref
+
+        it = deref(self.eval(node.iter, env))
+        if isinstance(it, self.lib.ItemsView):
+            it = it.d
+        if isinstance(it, SeqV):
+            return not isinstance(it.n, int)
+        if isinstance(it, SymListV):
+            return True
+        if isinstance(it, LazyDictV):
+            return it.base_alive
+        return False
 
     def s_For(self, node, env):
         spec = self.loop_spec(node, env)
@@ -642,7 +662,59 @@ class Interp:
             self.lib.setitem(self, d, self.eval(k, env), self.eval(v, env), node)
         return d
 
+    _SIMPLE = (ast.Compare, ast.BoolOp, ast.Name, ast.Constant, ast.Attribute, ast.Subscript, ast.Tuple)
+
+    def _simple_bool(self, n):
+        """syntactic forms that are evaluated without side effects: a boolean operator over
+        them may be turned into one formula instead of forking per operand"""
+        if isinstance(n, ast.UnaryOp):
+            return isinstance(n.op, ast.Not) and self._simple_bool(n.operand)
+        if not isinstance(n, self._SIMPLE):
+            return False
+        return all(self._simple_bool(c) for c in ast.iter_child_nodes(n) if isinstance(c, ast.expr))
+
+    def _boolop_formula(self, node, env):
+        """and/or over side-effect-free boolean operands as one z3 formula (no fork); None if
+        an operand is not boolean, would fork, or raises (then the faithful operand-by-
+        operand evaluation is used)"""
+        from .engine import WouldFork
+        from .values import mk_bool
+
+        ctx = self.ctx
+        if ctx.no_fork:
+            return None
+        is_and = isinstance(node.op, ast.And)
+        terms = []
+        ctx.no_fork = True
+        n_trace = len(ctx.trace)
+        try:
+            for sub in node.values:
+                v = self.eval(sub, env)
+                if isinstance(v, bool):
+                    if v != is_and:  # False in `and` / True in `or` decides the result
+                        if not terms:
+                            return ("value", v)
+                        terms.append(z3.BoolVal(v))
+                        break
+                    continue
+                if not isinstance(v, SBool):
+                    return None
+                terms.append(v.t)
+        except (WouldFork, RaiseSig, OutsideSubset):
+            return None
+        finally:
+            ctx.no_fork = False
+        if len(ctx.trace) != n_trace:
+            return None
+        if not terms:
+            return ("value", is_and)
+        return ("value", mk_bool(z3.And(terms) if is_and else z3.Or(terms)))
+
     def e_BoolOp(self, node, env):
+        if all(self._simple_bool(v) for v in node.values):
+            r = self._boolop_formula(node, env)
+            if r is not None:
+                return r[1]
         is_and = isinstance(node.op, ast.And)
         v = None
         for i, sub in enumerate(node.values):
@@ -891,6 +963,11 @@ class Interp:
             return self.truthy(v.prefix, node)
         if isinstance(v, MapV):
             return self.lib.map_nonempty(self, v)
+        from .values import LazyDictV
+
+        if isinstance(v, LazyDictV):
+            n = self.lib.length(self, v)
+            return n > 0 if isinstance(n, int) else self.ctx.decide(n.t > 0)
         if isinstance(v, ObjV):
             f, _ = v.cls.lookup("__bool__")
             if f is not None:
